@@ -51,8 +51,8 @@ pub fn un(op: Un, a: f32) -> f32 {
     }
 }
 
-/// min/max are NaN-propagating and follow IEEE 754-2019 minimum/maximum for
-/// zeros (-0 < +0), i.e. they are commutative bit-for-bit.
+/// min/max are NaN-propagating; on a tie (which only matters for zeros of
+/// opposite sign) the right-hand operand is returned, like the interpreter.
 pub fn bin(op: Bin, a: f32, b: f32) -> f32 {
     match op {
         Bin::Add => a + b,
@@ -63,7 +63,7 @@ pub fn bin(op: Bin, a: f32, b: f32) -> f32 {
         Bin::Min => {
             if a.is_nan() || b.is_nan() {
                 f32::NAN
-            } else if a < b || (a == b && a.is_sign_negative()) {
+            } else if a < b {
                 a
             } else {
                 b
@@ -72,7 +72,7 @@ pub fn bin(op: Bin, a: f32, b: f32) -> f32 {
         Bin::Max => {
             if a.is_nan() || b.is_nan() {
                 f32::NAN
-            } else if a > b || (a == b && a.is_sign_positive()) {
+            } else if a > b {
                 a
             } else {
                 b
